@@ -36,6 +36,7 @@ def main():
             res["error"] = "worktree: " + r.stdout[-300:]
             print(json.dumps(res)); return 2
         env = dict(os.environ, ST4SD_REPO=wt, PYTHONPATH="%s/python:%s" % (wt, wt), PYTHONDONTWRITEBYTECODE="1")
+        env.update(meta.get("demo_env", {}))   # e.g. a PYTHONHASHSEED under which an order-dependent defect shows
         demos = sorted(glob.glob(os.path.join(d, "demo*.py")))
         demo = demos[0] if demos else None
 
